@@ -4,7 +4,8 @@
    early exit; OrientationRegion.__gt__), tied to the code by the
    correspondence check; theorems over the reals for ALL inputs. *)
 From Coq Require Import Reals ZArith QArith List String Bool.
-From Verif Require Import Scalar RInst KField Quat QuatAlg GroupK Groups GroupFacts SymDot ZoneModel ZoneProofs.
+From Verif Require Import Scalar RInst KField KtoR Quat QuatAlg GroupK Groups GroupFacts SymDot SymDotK ZoneModel ZoneProofs
+  CertCheck CertSound RegionCertsAll RegionCertsAllOK.
 Import ListNotations.
 Local Open Scope R_scope.
 
@@ -66,13 +67,32 @@ Theorem C05_large_cell_is_minimal_angle : forall (D : list (quat (T:=R))) (x : q
 Proof. exact inside_large_cell_minimal. Qed.
 Print Assumptions C05_large_cell_is_minimal_angle.
 
-(* PARTIAL: the region the code uses is the large cell with normals pruned
-   (largest angle per axis; only normals touching a vertex) plus the axis
-   fundamental zone of the common subgroup.  That the pruned region still
-   implies the unpruned inequalities, and that every orbit has a member inside
-   it, is covered by the brute-force oracle for all 16 x 16 proper pairs and
-   by the exact certificates of Proofs/ZoneCerts (when present), not by a
-   theorem quantified over groups. *)
+(* THE REGION THE CODE BUILDS IS ADEQUATE, for all 225 ordered pairs of the 15 proper
+   named point groups (orientations are the pairs (1, G)): every real quaternion x
+   inside OrientationRegion.from_symmetry(Gl, Gr) -- exact test on the exact
+   directions of the normals the code keeps after pruning, recognised in K and
+   regenerated from /repo on every run -- has the smallest rotation angle of its
+   WHOLE orbit { gl * x * gr : gl in Gl, gr in Gr proper }.  Proof: exact Farkas
+   certificates (each half-space 1 +- d of the unpruned large cell is a
+   non-negative K-combination of the kept normals; found by an LP outside Coq,
+   checked inside by vm_compute), soundness of the K sign and of K -> R, the
+   plane-pair identity above, completeness of the distinguished points. *)
+Theorem C05_inside_region_is_minimal_in_orbit : forall rc, In rc (List.concat all_region_certs) ->
+  forall x : quat (T:=R), inside_region ROps 0 (map qtoR (rc_N rc)) x = true ->
+  forall gl gr, In gl (map qtoR (proper_quats (rc_l rc))) -> In gr (map qtoR (proper_quats (rc_r rc))) ->
+    Rabs (qre (qmul ROps (qmul ROps gl x) gr)) <= Rabs (qre x).
+Proof. exact inside_region_is_minimal_in_orbit. Qed.
+Print Assumptions C05_inside_region_is_minimal_in_orbit.
+
+Theorem C05_all_proper_pairs_covered : Datatypes.length (List.concat all_region_certs) = 225%nat.
+Proof. exact region_count. Qed.
+Print Assumptions C05_all_proper_pairs_covered.
+
+(* PARTIAL, still oracle-only: that every orbit HAS a member inside the region
+   (so that the loop always ends inside) and that all members of an orbit reduce to
+   the same representative off the boundaries -- this needs the axis fundamental zone
+   of the common subgroup to be a fundamental domain for conjugation; and the 1e-9
+   tolerance of the inside test (the theorems are for the exact test). *)
 
 Example C05_nonvacuous :
   inside_region ROps 0 (large_cell ROps [(0, 1, 0, 0)]) (1, 0, 0, 0) = true.
